@@ -6,6 +6,7 @@
 import Stevia.Proofs.HashSetState
 import Stevia.Proofs.ExecInv
 import Stevia.Proofs.HashSetImpEq
+import Stevia.Proofs.GenHSet
 
 namespace Stevia.C02
 open Stevia
@@ -84,5 +85,21 @@ theorem literal_model_is_the_model (hash : γ → Nat) (vd : γ) (s : HSet γ) (
   · rcases HSet.remove_spec h v with ⟨_, h2⟩ | ⟨_, s', h2, _⟩
     · exact ⟨s, false, h2, HImp.remove_eq hash vd s s h v false h2⟩
     · exact ⟨s', true, h2, HImp.remove_eq hash vd s s' h v true h2⟩
+
+/-- Tie through the translator. `Stevia.GenH.*` is regenerated from `hash_set.rs` on every run
+    (tools/rust2lean.py); run on the layout of any well-formed state, the *translated Rust functions* `insert`,
+    `remove` and `contains` yield the layout of the functional model's next state and the model's answer
+    (for every hash function; `insert` cannot hit the "set is full" panic). -/
+theorem translated_source_is_the_model (hash : γ → Nat) (vd : γ) (s : HSet γ) (h : s.Inv hash) (v : γ) :
+    (∃ s' r, s.insert hash v = .ok (s', r) ∧
+      (GenH.insert hash (HImp.dflt vd) (s.image vd) v).getD (s.image vd, false) = (s'.image vd, r)) ∧
+    (∃ s' r, s.remove hash v = .ok (s', r) ∧ GenH.remove hash (HImp.dflt vd) (s.image vd) v = (s'.image vd, r)) ∧
+    s.contains hash v = .ok (GenH.contains hash (HImp.dflt vd) (s.image vd) v) ∧
+    GenH.size hash (HImp.dflt vd) (s.image vd) = s.size ∧ GenH.capacity hash (HImp.dflt vd) (s.image vd) = s.cap := by
+  obtain ⟨⟨s1, r1, h1, e1⟩, ⟨s2, r2, h2, e2⟩, hc, _⟩ := literal_model_is_the_model hash vd s h v
+  refine ⟨⟨s1, r1, h1, ?_⟩, ⟨s2, r2, h2, ?_⟩, ?_, rfl, rfl⟩
+  · rw [GenH.insert_eq]; exact e1
+  · rw [GenH.remove_eq]; exact e2
+  · rw [GenH.contains_eq]; exact hc
 
 end Stevia.C02
